@@ -36,7 +36,9 @@ NESTED_ARGS = ['(1+2)*3', '("ls")', '(1, 2)', 'a, (b)', '[1, (2)]', '((x))']
 SUFFIX = ['', '', ' # c', '.x', ' + 1', ';', '"', ' (', ' )', ' :)', ' ((', ' ) (']
 TITLES = ['S1', 'Data_2', 'my sheet', 'Лист1', '2024', 'a.b', 'Q (1)', 'x-y', 'T', 'Rates {2024}', 'a}b', '{{tpl}}', '{0}', '%s %(x)d', 'it''s', 'tab\there', '100%', '#ref', 'a,b;c']
 INNOCENT = ['SUM(A1:A3)', 'hello (world)', 'IF(A1>1, "a", "b")', 'text', 'a (b) c', 42, 3.5, True, dt.datetime(2024, 5, 1),
-            '=SUM(A1:A3)', '=IF(A1>1,"a","b")', '=A1+1', '=ROUND(A1,1)', 'MAX(1, 2) and MIN(3)', '()', 'f ()', '(x)', 'A(']
+            '=SUM(A1:A3)', '=IF(A1>1,"a","b")', '=A1+1', '=ROUND(A1,1)', 'MAX(1, 2) and MIN(3)', '()', 'f ()', '(x)', 'A(',
+            # a number in front of a bracket is no identifier: phone numbers, quantities, implicit products
+            'call 555(1234)', 'tel. 8(800)555-35-35', '2(3)', '100(ok)', '12 (pcs)', '3(a+b)', '7(8)9(10)', '=A1*(2)', '№5(б)']
 
 
 def make_suspicious(rng, in_formula):
